@@ -43,7 +43,10 @@ OPTS = [  # (format, extensions, language)
     ("html", docs.STD, "en"), ("html", docs.COMPAT, "en"), ("latex", docs.STD, "de"), ("html", docs.STD | E["COMPLETE"], "fr"),
     ("opml", docs.STD, "en"), ("beamer", docs.STD, "es"), ("fodt", docs.STD, "en"), ("html", E["SMART"] | E["NOTES"] | E["NO_LABELS"], "sv"),
     ("memoir", docs.STD | E["SNIPPET"], "nl"),
+    # packaged formats: their bytes carry a fresh UUID / time stamp, so only "returns something" and "leaves the caller's source alone" are judged (det = False)
+    ("bundlezip", docs.STD, "en"), ("textbundle", docs.STD, "en"), ("epub", docs.STD, "en"), ("odt", docs.STD, "en"), ("itmz", docs.STD, "en"),
 ]
+PACKAGED = ("bundlezip", "textbundle", "epub", "odt", "itmz", "htmlassets")
 FAMS = ["s_conv", "d_conv", "s_data"]
 PLAIN = ("html", "latex", "beamer", "memoir", "opml")   # formats for which every entry point must agree (C06)
 CONVFAM = ("s_conv", "d_conv", "e_conv", "e_reuse", "e_export")
@@ -89,7 +92,7 @@ def to_trace_events(evs, opts_by_engine=None):
         if e["e"] == "conv":
             fmt = docs.FMTNAME[e["fmt"]]
             langn = [k for k, v in docs.LANG.items() if v == e["lang"]][0]
-            det = not (e["ext"] & (E["RANDOM_FOOT"] | E["RANDOM_LABELS"]))
+            det = not (e["ext"] & (E["RANDOM_FOOT"] | E["RANDOM_LABELS"])) and fmt not in PACKAGED
             inplace = bool(e["ext"] & (E["PARSE_OPML"] | E["PARSE_ITMZ"]))
             grp = "" if fmt in PLAIN else ("|conv" if e["fam"] in CONVFAM else "|data")
             out.append(dict(e="conv", fam=e["fam"], src=e["src"], key="%s|%s|%d|%s%s" % (e["src"], fmt, e["ext"], langn, grp), digest=e["digest"], det=det,
@@ -155,7 +158,7 @@ def run(tier, seed):
                          defect_GlobalRng_violates=d1.violated, defect_NoReset_violates=d2.violated)
     # 2. behaviours over the hand-picked pool
     exe = build.build_harness("asan")
-    dn = ["mail", "notes", "meta_de", "quotes", "tables", "critic", "rawfilter", "toc"]
+    dn = ["mail", "notes", "meta_de", "quotes", "tables", "critic", "rawfilter", "toc", "assets"]
     dpool = {n: docs.POOL[n].encode() for n in dn}
     opts = OPTS[:4] if tier == "quick" else OPTS[:6]
     n = 2 if tier == "quick" else 3
@@ -167,6 +170,13 @@ def run(tier, seed):
     hists_sim = uniq(gs.printed)
     allopts = OPTS
     scripts = [history_script(h, dn, opts) for h in hists] + [history_script(h, dn, allopts) for h in hists_sim]
+    # packaged formats through the entry points that share the caller's text (DString and engine families), each followed by a plain conversion of the same text
+    html = OPTS[0]
+    for d in dn:
+        for o in OPTS:
+            if o[0] not in PACKAGED: continue
+            scripts.append([conv_line("d_data", d, o), conv_line("d_conv", d, html), conv_line("e_data", d, o), conv_line("s_conv", d, html)])
+            scripts.append([line("e_new", 0, d, o[1], docs.LANG[o[2]]), line("e_data", 0, docs.FMT[o[0]]), line("e_conv", 0, docs.FMT["html"]), line("e_data", 0, docs.FMT[o[0]]), line("e_free", 0)])
     refs = sorted({(s, o) for s in dn for o in allopts}, key=str)
     problems, trace = run_session(chk, exe, dpool, refs, scripts, "pool")
     nconv = len([e for e in trace if e["e"] == "conv"])
